@@ -447,6 +447,53 @@ pub fn check(case: &Case, idx: u64, acc: &mut Acc) {
                 }
             }
         }
+        "concurrent-first-use" => {
+            // SUPPLEMENTARY, NOT EXHAUSTIVE: 24 threads released together make the process's very first name
+            // resolutions. Every documented name must resolve on every thread and the fully modelled calendars must
+            // carry their last holidays of the range. (A race in lazily built shared tables can only show here; the
+            // interleavings are the scheduler's, they are not enumerated.)
+            use rateslib::calendars::NamedCal;
+            use std::sync::{Arc, Barrier};
+            let all: Vec<String> = FULL.iter().chain(PARTIAL.iter()).cloned().chain(["all", "bus"]).map(|s| s.to_string()).collect();
+            let nthreads = 24usize;
+            let barrier = Arc::new(Barrier::new(nthreads));
+            let late: BTreeMap<String, Vec<i64>> = FULL.iter().map(|c| (c.to_string(), model_holidays(c).keys().cloned().filter(|z| weekday(*z) < 5 && *z > days_from_civil(2149, 6, 6)).collect())).collect();
+            let handles: Vec<_> = (0..nthreads)
+                .map(|tid| {
+                    let (all, barrier, late) = (all.clone(), barrier.clone(), late.clone());
+                    std::thread::spawn(move || {
+                        barrier.wait();
+                        let mut fails: Vec<String> = vec![];
+                        for k in 0..all.len() {
+                            let name = &all[(k + tid) % all.len()];
+                            match NamedCal::try_new(name) {
+                                Err(_) => fails.push(format!("thread {}: NamedCal::try_new({:?}) is an error", tid, name)),
+                                Ok(c) => {
+                                    if let Some(hs) = late.get(name) {
+                                        if let Some(z) = hs.iter().find(|z| !c.is_holiday(&to_ndt(**z))) {
+                                            fails.push(format!("thread {}: {:?} lacks its holiday {}", tid, name, fmt_day(*z)));
+                                        }
+                                    }
+                                }
+                            }
+                            if get_calendar_by_name(name).is_err() {
+                                fails.push(format!("thread {}: get_calendar_by_name({:?}) is an error", tid, name));
+                            }
+                        }
+                        fails
+                    })
+                })
+                .collect();
+            let mut fails: Vec<String> = vec![];
+            for h in handles {
+                fails.extend(h.join().expect("worker"));
+            }
+            acc.evals_add((nthreads * all.len()) as u64);
+            acc.nontrivial();
+            if !fails.is_empty() {
+                acc.violate("concurrent-first-use", idx, cj(), json!("every documented name resolves on every thread, with all its holidays"), json!(fails.iter().take(6).collect::<Vec<_>>()));
+            }
+        }
         "all-bus" => {
             let cal = get_calendar_by_name(&case.cal).unwrap();
             for z in DAY_MIN..=day_max() {
@@ -604,7 +651,10 @@ pub fn run(ctx: &Ctx, replay_file: Option<String>) -> ! {
         replay::<Case, _>(ctx, &f, check);
     }
     let cs = cases();
-    let acc = explore(&cs, check);
+    // the concurrency smoke pass must be the process's first use of the calendars: it runs before the exploration
+    let mut first = Acc::new();
+    check(&Case { cal: "*".into(), part: "concurrent-first-use".into() }, 0, &mut first);
+    let acc = first.merge(explore(&cs, check));
     let meta = Meta::exploration(
         "EVERY (calendar, date) pair: 14 built-in calendars x all 84 371 dates 1970-01-01..2200-12-31 (both tiers are \
          complete). tgt nyc fed ldn stk osl zur: on every Mon-Fri is_holiday <=> a rule of the transcribed generator \
@@ -612,7 +662,7 @@ pub fn run(ctx: &Ctx, replay_file: Option<String>) -> ! {
          one-offs) fires; weekends non-business; weekday non-holidays are business days. all/bus have no holidays. \
          fed == nyc minus Good Friday, date for date. tro tyo syd wlg mum: every weekday occurrence of each documented \
          fixed-date / Easter-linked holiday is a holiday (one-directional). Every name in the get_calendar docstring \
-         resolves. History independence: on one thread every name is resolved three times (in order, again, reversed) and named calendars 'a', 'a,b', 'a', 'b', 'b,a' are built for every ordered pair of the seven fully modelled calendars; with failing and differently spelt look-ups in between from the second pass on; every object obtained must still answer as its rules say. For the nine (fixing csv, calendar) pairs the calendar's business days over [first, last \
+         resolves. Supplementary and NOT exhaustive: before anything else 24 threads released together make the process's first name resolutions (every name must resolve, late holidays present). History independence: on one thread every name is resolved three times (in order, again, reversed) and named calendars 'a', 'a,b', 'a', 'b', 'b,a' are built for every ordered pair of the seven fully modelled calendars; with failing and differently spelt look-ups in between from the second pass on; every object obtained must still answer as its rules say. For the nine (fixing csv, calendar) pairs the calendar's business days over [first, last \
          publication] are exactly the publication dates. Non-trivial: weekday holidays / documented names / weekday \
          non-business days in a fixing period.",
         json!({"calendars": 14, "dates": 84371, "fixing_files": 9}),
